@@ -176,6 +176,52 @@ class Val(Spec):
         return "val:%s" % (model.get(name, {}).get("repr", "?") if isinstance(model.get(name), dict) else "?")
 
 
+class RefList(Spec):
+    """A list of distinct object references.  Symbolic mode: an SList of
+    symbolic references of class `cls`; concrete mode: a list of small ints
+    that setup() turns into real objects with Contract.reflist()."""
+
+    def __init__(self, cls, small=((), (1,), (1, 2), (1, 2, 3))):
+        self.cls = cls
+        self._small = small
+
+    def fresh(self, name):
+        l = core.fresh_list(name, ("ref", self.cls))
+        # references in one list are pairwise distinct and positive (0 is never a reference)
+        i, j = z3.Int(name + "!i"), z3.Int(name + "!j")
+        n = z3.Length(l.seq)
+        ctx().assume(z3.ForAll([i, j], z3.Implies(z3.And(0 <= i, i < j, j < n), l.seq[i] != l.seq[j])))
+        ctx().assume(z3.ForAll([i], z3.Implies(z3.And(0 <= i, i < n), l.seq[i] > 0)))
+        return l
+
+    def small(self):
+        return [list(x) for x in self._small]
+
+    def from_model(self, model, name, symbols):
+        v = model.get(name)
+        vals = v.get("seq") if isinstance(v, dict) else None
+        return list(vals or [])
+
+
+class ValList(Spec):
+    """A list of opaque payload values."""
+
+    def __init__(self, small=((), ("x",), ("x", "y"))):
+        self._small = small
+
+    def fresh(self, name):
+        return core.fresh_list(name, "val")
+
+    def small(self):
+        return [list(x) for x in self._small]
+
+    def from_model(self, model, name, symbols):
+        v = model.get(name)
+        if isinstance(v, dict) and "repr" in v:
+            return ["val%d" % k for k in range(v["repr"].count("Unit"))]
+        return []
+
+
 class Const(Spec):
     def __init__(self, v):
         self.v = v
@@ -336,6 +382,11 @@ class Contract:
     ensures: Dict[str, Callable] = {}
     raises: Any = ()
     frame: Optional[Dict[str, tuple]] = None  # objname -> fields allowed to change
+    invariant: Optional[Callable] = None  # object invariant over NSView(objs): assumed on entry, proved at
+    # every call-out made through callout() and at exit
+    differential = True  # compare the interpreter in concrete mode with CPython on sampled inputs
+    patch_classes: tuple = ()  # real classes whose call-out methods (keys "Cls.method" of calls) are intercepted
+    # at class level during concrete runs
     trusted: List[str] = []
     canaries: List[tuple] = []  # (old text, new text, clause expected to fail | None for harmless)
     max_paths = 4000
@@ -385,6 +436,33 @@ class Contract:
             return core.fresh_list(name, elem)
         return list(items)
 
+    def reflist(self, ids, factory):
+        """List-of-objects field from a RefList input: the symbolic list as is,
+        or real objects built by factory(id) for concrete ids (same id, same object)."""
+        if isinstance(ids, SList):
+            return ids
+        cache = self.__dict__.setdefault("_refcache", {})
+        out = []
+        for k in ids:
+            key = (id(ctx()), k)
+            if key not in cache:
+                cache[key] = factory(k)
+            out.append(cache[key])
+        return out
+
+    def fresh_ref(self, cls, factory, avoid=()):
+        """A newly created object: a fresh symbolic reference distinct from
+        every reference in the lists `avoid`, or factory() in concrete mode."""
+        if self.mode != "symbolic":
+            return factory()
+        c = ctx()
+        t = z3.Int(c.fresh_name("new_" + cls))
+        c.assume(t > 0)
+        for l in avoid:
+            if isinstance(l, SList):
+                c.assume(z3.Not(z3.Contains(l.seq, z3.Unit(t))))
+        return core.SRef(t, cls)
+
     def setup(self, i):
         raise NotImplementedError
 
@@ -418,6 +496,39 @@ class Contract:
     def target_callable(self, pf, st):
         fn = st["fn"]
         return fn
+
+
+def callout(event, returns=None, havoc=None):
+    """Handler for a call into unknown code (user callback, transport, ...):
+    (1) the object invariant must hold now (obligation), (2) the call is
+    recorded with a snapshot of the scenario's objects, (3) the fields named
+    in `havoc` (list of (object-name, field)) are replaced by fresh values
+    that satisfy the invariant: re-entrant code may have changed them."""
+    def handler(I, recv, *args, **kw):
+        c = ctx()
+        contract = c.ghost.get("$contract")
+        objs = c.ghost.get("$objs", {})
+        if contract is not None and contract.invariant is not None:
+            inv = contract.invariant(NSView(objs))
+            if c.concrete:
+                if not inv:
+                    c.ghost.setdefault("$inv_failures", []).append(event)
+            else:
+                c.oblige("%s/invariant/at-callout/%s" % (contract.name, event), inv, "invariant")
+        snap = NSView({k: snapshot_of(o) for k, o in objs.items()})
+        c.emit(event, recv, args, kw, snap)
+        if havoc and not c.concrete:
+            interp = c.ghost.get("$interp")
+            for oname, fld in havoc:
+                o = objs[oname]
+                cur = o._fields[fld]
+                o._fields[fld] = interp.havoc_like(cur, "%s_%s" % (oname, fld))
+            if contract.invariant is not None:
+                c.assume(as_bool_term(contract.invariant(NSView(objs))))
+        if callable(returns):
+            return returns(I, recv, *args, **kw)
+        return returns
+    return handler
 
 
 def _run_target(contract, pf, st, I):
@@ -563,6 +674,12 @@ def symbolic_run(contract: Contract, tier="quick", mutate=None) -> FunctionResul
             objs = st.get("objs", {})
             old = NSView({k: snapshot_of(o) for k, o in objs.items()})
             c.ghost.update(st.get("ghost", {}))
+            c.ghost["$objs"] = objs
+            c.ghost["$contract"] = contract
+            c.ghost["$interp"] = I
+            if contract.invariant is not None:
+                c.assume(as_bool_term(contract.invariant(NSView(objs))))  # object invariant holds on entry
+                c.check_feasible()
             exc = None
             value = None
             try:
@@ -573,6 +690,8 @@ def symbolic_run(contract: Contract, tier="quick", mutate=None) -> FunctionResul
                 if isinstance(e, (KeyboardInterrupt, SystemExit, MemoryError)):
                     raise
                 exc = e
+            if contract.invariant is not None:
+                c.oblige("%s/invariant/at-exit" % contract.name, contract.invariant(NSView(objs)), "invariant")
             S = State(i, old, NSView(objs), value, exc, list(c.trace), dict(c.ghost))
             return S, in_known
 
@@ -743,8 +862,22 @@ def concrete_run(contract: Contract, inputs: dict, native=True):
         objs = st.get("objs", {})
         old = NSView({k: snapshot_of(o) for k, o in objs.items()})
         c.ghost.update(st.get("ghost", {}))
+        c.ghost["$objs"] = objs
+        c.ghost["$contract"] = contract
+        if contract.invariant is not None and not contract.invariant(NSView(objs)):
+            return None, None  # the object invariant is part of the precondition
         exc = None
         value = None
+        patched = []
+        if native:
+            # methods the contract treats as call-outs are intercepted on the real classes too, so objects
+            # created by the code under test (e.g. a new Deferred) record the same events
+            for cls in contract.patch_classes:
+                for key, h in contract.calls.items():
+                    cname, _, m = key.partition(".")
+                    if cname == cls.__name__ and m and m != "*" and m in cls.__dict__:
+                        patched.append((cls, m, cls.__dict__[m]))
+                        setattr(cls, m, (lambda h: lambda self_, *a, **kw: h(NATIVE, self_, *a, **kw))(h))
         try:
             if native:
                 value = _run_target_native(contract, st)
@@ -758,8 +891,14 @@ def concrete_run(contract: Contract, inputs: dict, native=True):
             if isinstance(e, (KeyboardInterrupt, SystemExit, MemoryError)):
                 raise
             exc = e
+        finally:
+            for cls, m, orig in patched:
+                setattr(cls, m, orig)
         S = State(i, old, NSView(objs), value, exc, list(c.trace), dict(c.ghost))
         fails = evaluate_clauses(contract, S)
+        fails += ["invariant/at-callout/%s" % e for e in c.ghost.get("$inv_failures", [])]
+        if contract.invariant is not None and not contract.invariant(NSView(objs)):
+            fails.append("invariant/at-exit")
         return S, fails
     finally:
         core.set_ctx(old_ctx)
